@@ -34,6 +34,9 @@ def files(rng, thorough):
     out.append(b"\xef\xbb\xbf// header with a byte-order mark\n// DDBEGIN\na\n{\n\n}\nb\n// DDEND\n\xef\xbb\xbftail\n")
     out.append(b"\xff\xfeh\r\nDDBEGIN\r\nab\r\nDDEND\x00\r\n")
     out.append(b"h\nDDBEGIN\nab{\n}DDEND\n}\n")
+    # the marker words inside longer words: a line that merely CONTAINS them is a marker line (`var ADDEND`, `xDDBEGINx`)
+    out.append(b"head\n// DDBEGIN\na;\nb;\nvar ADDEND = 3;\nc;\n// DDEND\ntail\n")
+    out.append(b"head\nxDDBEGINy = 1;\na\nb\nDDEND_done();\ntail\n")
     out.append(b"h {\r\n/* DDBEGIN */\r\nf(a){\r\n \r\n}\r\n/* DDEND */ }\r\nt\r\n")
     return out
 
